@@ -97,6 +97,20 @@ type VerifKCPState struct {
 
 // VerifState snapshots the core. The caller must hold whatever lock protects it.
 func (kcp *KCP) VerifState() VerifKCPState {
+	st := kcp.VerifStateLite()
+	for seg := range kcp.snd_buf.ForEach {
+		if seg.acked == 0 {
+			st.SndBufUnacked++
+		}
+		if seg.xmit > st.MaxXmit {
+			st.MaxXmit = seg.xmit
+		}
+	}
+	return st
+}
+
+// VerifStateLite is VerifState without the O(window) walk over the send buffer.
+func (kcp *KCP) VerifStateLite() VerifKCPState {
 	st := VerifKCPState{
 		Conv: kcp.conv, Mtu: kcp.mtu, Mss: kcp.mss, State: kcp.state,
 		SndUna: kcp.snd_una, SndNxt: kcp.snd_nxt, RcvNxt: kcp.rcv_nxt,
@@ -110,14 +124,6 @@ func (kcp *KCP) VerifState() VerifKCPState {
 		SndBuf: kcp.snd_buf.Len(), RcvBuf: kcp.rcv_buf.Len(),
 		AckList:  len(kcp.acklist),
 		PeekSize: kcp.PeekSize(),
-	}
-	for seg := range kcp.snd_buf.ForEach {
-		if seg.acked == 0 {
-			st.SndBufUnacked++
-		}
-		if seg.xmit > st.MaxXmit {
-			st.MaxXmit = seg.xmit
-		}
 	}
 	return st
 }
